@@ -62,8 +62,30 @@ def sortLines (l : List Str) : List Str :=
   let le := fun (a b : Str) => (a.map Char.toNat) ≤ (b.map Char.toNat)
   l.foldr (fun x acc => let (lo, hi) := acc.span (fun y => !(le x y)); lo ++ x :: hi) []
 
+/-- a lexicon as a bag of (word, tag, count) triples: the order of words and of the tags of a word is irrelevant -/
+def lexTriples (l : Lexicon) : List (Str × Str × Nat) := l.flatMap fun (w, tags) => tags.map fun (t, c) => (w, t, c)
+def sameLex (a b : Lexicon) : Bool := sameBag (lexTriples a) (lexTriples b)
+def sortStrings (l : List String) : List String := (sortLines (l.map String.toList)).map String.ofList
+
 def runOpGrammar (op : String) (args : List String) : String :=
   match op, args with
+  | "canon_pmcfg", [gl, ll] =>
+    -- canonical content of a PMCFG grammar file (+ lexicon file): the decoded rules and lexicon entries, sorted;
+    -- used to compare two texts whose function / linearization numbering or line order may differ
+    match decLines gl with
+    | some gl =>
+      (match decPmcfg gl with
+       | some rules =>
+         let rs := sortStrings (rules.map fun (f, l, c) => s!"{encFunc f}|{encLin l}|{c}")
+         let lx := if ll == "none" then "none" else
+           match decLines ll with
+           | some ll => (match decLex ll with
+               | some lx => ";".intercalate (sortStrings ((lexTriples lx).map fun (w, t, c) => s!"{encS w}>{encS t}:{c}"))
+               | none => "FAIL lexicon-file-does-not-decode")
+           | none => bad
+         ";".intercalate rs ++ " # " ++ lx
+       | none => "FAIL pmcfg-does-not-decode")
+    | none => bad
   | "extract", [ts] =>
     match decTrees ts with
     | some ts => let (g, l) := extractAll ts; encGrammar g ++ " # " ++ encLexicon l
@@ -185,16 +207,16 @@ def runOpGrammar (op : String) (args : List String) : String :=
     | some g, some l, some gl =>
       let want := (if lig == "t" then addLexRules g l else g).rules
       firstFail [
-        okIf (decPmcfg gl == some want) "pmcfg-does-not-decode-to-grammar",
-        okIf (lig == "t" || (match decLines ll with | some ll => decLex ll == some l | none => false)) "lexicon-file-does-not-decode"]
+        okIf ((decPmcfg gl).map (sameBag want) == some true) "pmcfg-does-not-decode-to-grammar",
+        okIf (lig == "t" || (match decLines ll with | some ll => (decLex ll).map (sameLex l) == some true | none => false)) "lexicon-file-does-not-decode"]
     | _, _, _ => bad
   | "P.C09.rcg", [lig, g, l, g2, l2] =>
     -- g2/l2: what the tool's own reader returned for the written files
     match decGrammar g, decLexicon l, decGrammar g2, decLexicon l2 with
     | some g, some l, some g2, some l2 =>
       let want := (if lig == "t" then addLexRules g l else g).rules
-      firstFail [okIf (g2.rules == want) "rcg-reread-differs",
-        okIf (lig == "t" || l2 == l) "lexicon-reread-differs"]
+      firstFail [okIf (sameBag g2.rules want) "rcg-reread-differs",
+        okIf (lig == "t" || sameLex l2 l) "lexicon-reread-differs"]
     | _, _, _, _ => bad
   | "P.C09.lopar", [g, l, files] =>
     match decGrammar g, decLexicon l, (files.splitOn " # ").mapM decLines with
@@ -207,8 +229,8 @@ def runOpGrammar (op : String) (args : List String) : String :=
         let tags := (ws.flatMap fun (_, t) => t.map (·.1)).eraseDups
         tags.map fun t => (t, (ws.map fun (_, tg) => (AList.get? t tg).getD 0).sum)
       firstFail [
-        okIf (decLoparGram gr == some (g.rules.map fun (f, _, c) => (f, c))) "gram-file",
-        okIf (decLex lx == some l) "lex-file",
+        okIf ((decLoparGram gr).map (sameBag (g.rules.map fun (f, _, c) => (f, c))) == some true) "gram-file",
+        okIf ((decLex lx).map (sameLex l) == some true) "lex-file",
         okIf ((decCountLines st).map (sameBag starts) == some true) "start-file",
         okIf ((decCountLines oc).map (sameBag (tagsOf false)) == some true) "oc-file",
         okIf ((decCountLines ocu).map (sameBag (tagsOf true)) == some true) "OC-file"]
